@@ -1,6 +1,6 @@
 (* Correspondence suites for C14: suite name -> arguments -> observation text.
    Events travel as  srcflag ("1" = has a source), source name, command, params... *)
-Require Import Bytes Names GoUpper Ctcp WireOut.
+Require Import Bytes Names GoUpperAscii Ctcp WireOut.
 
 Definition one_byte (b : N) (s : str) : bool := match s with [c] => c =? b | _ => false end.
 
